@@ -70,6 +70,17 @@ func (b Blob) Bytes() []byte {
 		if len(out) >= len(h) {
 			copy(out[int(b.Seed%uint64(len(out)-len(h)+1)):], h)
 		}
+	case "markx91", "markff":
+		// a marker inside a payload followed by a run of bytes with the continuation bit set:
+		// whatever follows the marker does not even parse as varints
+		fill := byte(0x91)
+		if b.Pat == "markff" {
+			fill = 0xff
+		}
+		out = bytes.Repeat([]byte{fill}, b.Len)
+		if len(out) >= len(Marker) {
+			copy(out[int(b.Seed%uint64(len(out)-len(Marker)+1)):], Marker)
+		}
 	case "text":
 		out = make([]byte, b.Len)
 		for i := range out {
@@ -92,7 +103,7 @@ func BlobOf(b []byte) Blob {
 	return Blob{Lit: b}
 }
 
-var patterns = []string{"rand", "zero", "ff", "x91", "marker", "markhdr", "text"}
+var patterns = []string{"rand", "zero", "ff", "x91", "marker", "markhdr", "markx91", "markff", "text"}
 
 var tails = [][]byte{nil, nil, nil, {0x91}, {0x91, 0x8d}, {0x91, 0x8d, 0x4c}, {0x00}, {0x80}}
 
